@@ -1,11 +1,402 @@
 /-
 C10 — signature, clef and measure maps return what is in force at the queried time.
-Property theorems over Model/StepMap.lean.
+Property theorems over Model/StepMap.lean (helper lemmas: Proofs/C10.lean).
+
+Vocabulary (Proofs/C10.lean):
+  `SortedLE tbl` / `SortedLT tbl`  rows in time order (coincident times allowed / at most one per time)
+  `InForce tbl x e`                `e ∈ tbl`, `e.1 ≤ x`, and no row starting at or before `x` starts later
+  `Ordered ms`                     every measure is non-empty and starts at or after the end of the previous one
+  `Tiles ms`                       … and starts exactly where the previous one ends (no gaps)
+A result `none` is scipy's NaN; `span = some (first_point.t, last_point.t)`.
 -/
-import PartituraModel.Model.StepMap
+import PartituraModel.Proofs.C10
 
 namespace C10
-open Model Model.StepMap
+open Model Model.StepMap Gen
+
+/-! ### previous-value lookup -/
+
+/-- `lookup_spec`: in a table in time order, the answer is the value of a row in force
+    (greatest start ≤ x); when every row starts after `x`, scipy answers NaN and the
+    back-filled lookup answers the first row's value. -/
+theorem lookup_spec {α : Type} (tbl : Tbl α) (x : Int) (hs : SortedLE tbl) :
+    ((∃ e ∈ tbl, e.1 ≤ x) →
+      ∃ e, InForce tbl x e ∧ lastLE tbl x = some e.2 ∧ lookupPrev tbl x = some e.2) ∧
+    ((∀ e ∈ tbl, x < e.1) → lastLE tbl x = none ∧ lookupPrev tbl x = tbl.head?.map (·.2)) := by
+  constructor
+  · rintro ⟨e0, he0, hle0⟩
+    cases hr : lastLE tbl x with
+    | none =>
+      have := (lastLE_eq_none_iff tbl x hs).mp hr e0 he0
+      omega
+    | some w =>
+      obtain ⟨e, he, hv⟩ := lastLE_some_inForce tbl x hs w hr
+      exact ⟨e, he, by rw [hv], by rw [hv]; exact lookupPrev_of_some tbl x w hr⟩
+  · intro h
+    have hn := (lastLE_eq_none_iff tbl x hs).mpr h
+    exact ⟨hn, lookupPrev_of_none tbl x hn⟩
+
+/-- with at most one row per time, *the* row in force is the answer -/
+theorem lookup_unique {α : Type} (tbl : Tbl α) (x : Int) (hs : SortedLT tbl) (e : Int × α)
+    (h : InForce tbl x e) : lastLE tbl x = some e.2 ∧ lookupPrev tbl x = some e.2 :=
+  ⟨lastLE_of_inForce tbl x hs e h, lookupPrev_of_inForce tbl x hs e h⟩
+
+example : InForce [((0 : Int), "a"), (5, "b"), (9, "c")] 7 (5, "b") := by
+  refine ⟨by simp, by decide, ?_⟩
+  intro e' he' hle
+  simp only [List.mem_cons, List.mem_nil_iff, or_false] at he'
+  rcases he' with rfl | rfl | rfl <;> simp_all
+
+example : lookupPrev [((3 : Int), "a"), (5, "b")] 1 = some "a" ∧ lastLE [((3 : Int), "a"), (5, "b")] 1 = none := by
+  decide
+
+/-- the wrapper `interp1d` with a single sample is the constant function -/
+theorem single_sample {α : Type} (t : Int) (v : α) (x : Int) : interpPrev [(t, v)] x = some v := rfl
+
+/-! ### time signatures -/
+
+/-- musical beats as documented: 2 for 6, 3 for 9, 4 for 12, else the number of beats
+    (over the regenerated `MUSICAL_BEATS` table, for every number of beats) -/
+theorem musical_beats_spec (b : Nat) :
+    musicalBeats b = if b = 6 then 2 else if b = 9 then 3 else if b = 12 then 4 else b := by
+  unfold musicalBeats MUSICAL_BEATS
+  simp only [lookup]
+  by_cases h6 : b = 6
+  · subst h6; rfl
+  · by_cases h9 : b = 9
+    · subst h9; rfl
+    · by_cases h12 : b = 12
+      · subst h12; rfl
+      · have h6' : ¬ (6 = b) := fun h => h6 h.symm
+        have h9' : ¬ (9 = b) := fun h => h9 h.symm
+        have h12' : ¬ (12 = b) := fun h => h12 h.symm
+        simp [h6, h9, h12, h6', h9', h12']
+
+/-- `ts_spec`: on the timeline (`first ≤ x`) the time-signature map returns the time signature in
+    force, the first one for positions before it, and 4/4 (musical beats 4) when there is none. -/
+theorem ts_spec (f l x : Int) (hx : f ≤ x) (tss : List (Int × Nat × Nat)) (hs : SortedLT tss) :
+    (tss = [] → tsMap (some (f, l)) tss x = some (4, 4, 4)) ∧
+    (∀ e, InForce tss x e → tsMap (some (f, l)) tss x = some (e.2.1, e.2.2, musicalBeats e.2.1)) ∧
+    (∀ e rest, tss = e :: rest → x < e.1 →
+      tsMap (some (f, l)) tss x = some (e.2.1, e.2.2, musicalBeats e.2.1)) := by
+  refine ⟨?_, ?_, ?_⟩
+  · rintro rfl
+    exact tsMap_default (some (f, l)) x hx
+  · intro e he
+    have hne : tss ≠ [] := by intro h; rw [h] at he; exact absurd he.1 (by simp)
+    rw [tsMap_eq_lookupPrev f l x tss hne hx, tsRows_eq]
+    exact lookupPrev_of_inForce _ x (sortedLT_mapVal _ tss hs) _ (inForce_mapVal _ tss x e he)
+  · rintro e rest rfl hlt
+    rw [tsMap_eq_lookupPrev f l x _ (by simp) hx, tsRows_eq]
+    exact lookupPrev_before _ _ _ x hlt
+
+/-- a part without time points: 4/4 from position 0 on -/
+theorem ts_default_empty_part (x : Int) (hx : 0 ≤ x) : tsMap none [] x = some (4, 4, 4) :=
+  tsMap_default none x hx
+
+example : tsMap (some (0, 20)) [(8, 3, 4)] 2 = some (3, 4, 3)
+    ∧ tsMap (some (0, 20)) [(8, 3, 4), (12, 6, 8)] 13 = some (6, 8, 2)
+    ∧ tsMap (some (0, 20)) [(8, 3, 4), (12, 6, 8)] 11 = some (3, 4, 3)
+    ∧ tsMap (some (2, 20)) [] 5 = some (4, 4, 4)
+    ∧ tsMap (some (2, 20)) [(8, 3, 4), (12, 6, 8)] 1 = none := by decide
+
+/-! ### key signatures -/
+
+/-- `ks_spec`: the key-signature map returns (fifths, mode code) of the key signature in force,
+    of the first one before it, and C major `(0, 1)` when there is none; a missing mode is major. -/
+theorem ks_spec (f l x : Int) (hx : f ≤ x) (kss : List (Int × Int × Mode)) (hs : SortedLT kss) :
+    (kss = [] → ksMap (some (f, l)) kss x = some (0, 1)) ∧
+    (∀ e, InForce kss x e → ksMap (some (f, l)) kss x = some (e.2.1, keyModeToInt e.2.2)) ∧
+    (∀ e rest, kss = e :: rest → x < e.1 → ksMap (some (f, l)) kss x = some (e.2.1, keyModeToInt e.2.2)) := by
+  refine ⟨?_, ?_, ?_⟩
+  · rintro rfl
+    exact ksMap_default (some (f, l)) x hx
+  · intro e he
+    have hne : kss ≠ [] := by intro h; rw [h] at he; exact absurd he.1 (by simp)
+    rw [ksMap_eq_lookupPrev f l x kss hne hx, ksRows_eq]
+    exact lookupPrev_of_inForce _ x (sortedLT_mapVal _ kss hs) _ (inForce_mapVal _ kss x e he)
+  · rintro e rest rfl hlt
+    rw [ksMap_eq_lookupPrev f l x _ (by simp) hx, ksRows_eq]
+    exact lookupPrev_before _ _ _ x hlt
+
+theorem ks_default_empty_part (x : Int) (hx : 0 ≤ x) : ksMap none [] x = some (0, 1) :=
+  ksMap_default none x hx
+
+/-- mode codes: +1 / −1, decoding to the mode; a missing mode (`None`, "none") is read as major -/
+theorem mode_code (m : Mode) :
+    (keyModeToInt m = 1 ∨ keyModeToInt m = -1) ∧ keyIntToMode (keyModeToInt m) = some m
+    ∧ modeOfString "None" = some .major ∧ modeOfString "none" = some .major := by
+  cases m <;> decide
+
+example : ksMap (some (0, 9)) [(0, -3, .minor), (4, 2, .major)] 3 = some (-3, -1)
+    ∧ ksMap (some (0, 9)) [(0, -3, .minor), (4, 2, .major)] 4 = some (2, 1)
+    ∧ ksMap (some (0, 9)) [(4, 2, .major)] 0 = some (2, 1)
+    ∧ ksMap (some (0, 9)) [] 0 = some (0, 1) := by decide
+
+/-! ### clefs -/
+
+/-- the code of the "no clef" default, and the whole regenerated table decodes to what was encoded -/
+theorem clef_code :
+    clefSignToInt "none" = some 6 ∧
+    (∀ e ∈ CLEF_TO_INT, clefIntToSign e.2 = some e.1 ∧ clefSignToInt e.1 = some e.2) := by decide
+
+/-- the rows handed to the interpolators are the clefs with their sign codes (missing octave change = 0);
+    an unknown sign makes the map raise -/
+theorem clef_rows_spec (clefs : List RawClef) :
+    (∀ rows, clefRows clefs = some rows →
+      List.Forall₂ (fun (c : RawClef) (r : Int × ClefV) =>
+        r.1 = c.1 ∧ r.2.1 = c.2.1 ∧ clefSignToInt c.2.2.1 = some r.2.2.1 ∧ r.2.2.2.1 = c.2.2.2.1
+          ∧ r.2.2.2.2 = c.2.2.2.2.getD 0) clefs rows) ∧
+    (clefRows clefs = none ↔ ∃ c ∈ clefs, clefSignToInt c.2.2.1 = none) := by
+  induction clefs with
+  | nil => exact ⟨by intro rows h; simp [clefRows] at h; subst h; exact .nil, by simp [clefRows]⟩
+  | cons c rest ih =>
+    obtain ⟨t, st, sign, line, oc⟩ := c
+    constructor
+    · intro rows h
+      unfold clefRows at h
+      cases hc : clefSignToInt sign with
+      | none => simp [hc] at h
+      | some code =>
+        cases hrs : clefRows rest with
+        | none => simp [hc, hrs] at h
+        | some rs =>
+          simp only [hc, hrs, Option.some.injEq] at h
+          subst h
+          refine .cons ⟨rfl, rfl, hc, rfl, ?_⟩ (ih.1 rs hrs)
+          cases oc <;> rfl
+    · unfold clefRows
+      cases hc : clefSignToInt sign with
+      | none => simp [hc]
+      | some code =>
+        cases hrs : clefRows rest with
+        | none =>
+          have := ih.2.mp hrs
+          simp [hc, this]
+        | some rs =>
+          have h1 : ¬ ∃ c ∈ rest, clefSignToInt c.2.2.1 = none := by
+            intro h; have := ih.2.mpr h; rw [hrs] at this; simp at this
+          simp only [reduceCtorEq, List.mem_cons, exists_eq_or_imp, hc, false_or, false_iff]
+          exact h1
+
+/-- the staff-count rule: the largest staff number carried by any element, at least 1 -/
+theorem number_of_staves_spec (staffs : List Int) :
+    1 ≤ numberOfStaves staffs ∧ (∀ s ∈ staffs, s ≤ (numberOfStaves staffs : Int)) ∧
+    (numberOfStaves staffs = 1 ∨ (numberOfStaves staffs : Int) ∈ staffs) := by
+  have key : ∀ (l : List Int) (m : Int), 1 ≤ m →
+      m ≤ l.foldl (fun m s => if m < s then s else m) m ∧
+      (∀ s ∈ l, s ≤ l.foldl (fun m s => if m < s then s else m) m) ∧
+      (l.foldl (fun m s => if m < s then s else m) m = m ∨ l.foldl (fun m s => if m < s then s else m) m ∈ l) := by
+    intro l
+    induction l with
+    | nil => intro m _; simp
+    | cons a rest ih =>
+      intro m hm
+      simp only [List.foldl_cons]
+      by_cases h : m < a
+      · simp only [h, if_true]
+        obtain ⟨h1, h2, h3⟩ := ih a (by omega)
+        refine ⟨by omega, ?_, ?_⟩
+        · intro s hs
+          rcases List.mem_cons.mp hs with rfl | hs'
+          · exact h1
+          · exact h2 s hs'
+        · rcases h3 with h3 | h3
+          · right; rw [h3]; exact List.mem_cons_self ..
+          · right; exact List.mem_cons_of_mem _ h3
+      · simp only [h, if_false]
+        obtain ⟨h1, h2, h3⟩ := ih m hm
+        refine ⟨h1, ?_, ?_⟩
+        · intro s hs
+          rcases List.mem_cons.mp hs with rfl | hs'
+          · omega
+          · exact h2 s hs'
+        · rcases h3 with h3 | h3
+          · left; exact h3
+          · right; exact List.mem_cons_of_mem _ h3
+  obtain ⟨h1, h2, h3⟩ := key staffs 1 (Int.le_refl _)
+  unfold numberOfStaves
+  refine ⟨by omega, ?_, ?_⟩
+  · intro s hs
+    have := h2 s hs
+    omega
+  · rcases h3 with h3 | h3
+    · left; rw [h3]; rfl
+    · right
+      have : ((staffs.foldl (fun m s => if m < s then s else m) 1).toNat : Int)
+          = staffs.foldl (fun m s => if m < s then s else m) 1 := by omega
+      rw [this]; exact h3
+
+/-- `clef_spec`: one row per staff `1..number_of_staves`; on the timeline the row of staff `i+1` is
+    the clef of that staff in force, the first clef of that staff before it, and
+    `(staff, code of "none", 0, 0)` for a staff without clefs. -/
+theorem clef_spec (f l x : Int) (hx : f ≤ x) (clefs : List RawClef) (others : List Int) (rows : Tbl ClefV)
+    (hr : clefRows clefs = some rows) :
+    ∃ res, clefMap (some (f, l)) clefs others x = some res ∧
+      res.length = numberOfStaves (clefs.map (·.2.1) ++ others) ∧
+      ∀ i : Nat, i < numberOfStaves (clefs.map (·.2.1) ++ others) →
+        (rows.filter (fun r => r.2.1 = (i : Int) + 1) = [] → res[i]? = some (some ((i : Int) + 1, 6, 0, 0))) ∧
+        (SortedLT rows → ∀ e, InForce (rows.filter fun r => r.2.1 = (i : Int) + 1) x e →
+          res[i]? = some (some e.2)) ∧
+        (∀ e rest, rows.filter (fun r => r.2.1 = (i : Int) + 1) = e :: rest → x < e.1 →
+          res[i]? = some (some e.2)) := by
+  have hn : clefSignToInt "none" = some 6 := by decide
+  refine ⟨_, by unfold clefMap; rw [hr, hn], by simp, ?_⟩
+  intro i hi
+  have hget : ∀ (g : Nat → Option ClefV), ((List.range (numberOfStaves (clefs.map (·.2.1) ++ others))).map g)[i]?
+      = some (g i) := by
+    intro g; rw [List.getElem?_map, List.getElem?_range hi]; rfl
+  rw [hget]
+  refine ⟨?_, ?_, ?_⟩
+  · intro hnil
+    rw [clefStaff_default (some (f, l)) x rows 6 _ hnil hx]
+  · intro hs e he
+    have hne : rows.filter (fun r => r.2.1 = (i : Int) + 1) ≠ [] := by
+      intro h; rw [h] at he; exact absurd he.1 (by simp)
+    rw [clefStaff_eq_lookupPrev f l x rows 6 _ hne hx]
+    have hsf : SortedLT (rows.filter fun r => r.2.1 = (i : Int) + 1) := List.Pairwise.filter _ hs
+    rw [lookupPrev_of_inForce _ x hsf e he]
+  · intro e rest hrest hlt
+    rw [clefStaff_eq_lookupPrev f l x rows 6 _ (by rw [hrest]; simp) hx, hrest]
+    obtain ⟨t, v⟩ := e
+    rw [lookupPrev_before t v rest x hlt]
+
+/-- an unknown clef sign: the map raises (`none`) -/
+theorem clef_unknown_sign (span : Span) (clefs : List RawClef) (others : List Int) (x : Int)
+    (h : clefRows clefs = none) : clefMap span clefs others x = none := by
+  unfold clefMap; rw [h]
+
+example : clefMap (some (0, 9)) [(0, 1, "G", 2, some 0), (4, 3, "F", 4, none), (6, 1, "C", 3, some (-1))] [2] 5
+    = some [some (1, 0, 2, 0), some (2, 6, 0, 0), some (3, 1, 4, 0)] := by decide
+
+example : clefMap (some (0, 9)) [(0, 1, "G", 2, some 0), (4, 3, "F", 4, none), (6, 1, "C", 3, some (-1))] [2] 7
+    = some [some (1, 2, 3, -1), some (2, 6, 0, 0), some (3, 1, 4, 0)] := by decide
+
+/-! ### measures -/
+
+/-- the pickup rule: a first measure shorter than `beats · divs_per_beat` gets the start
+    `round(end − beats · divs_per_beat)` (exactly `end − k` when the full bar is the integer `k`);
+    otherwise, and when either quantity is NaN, it keeps its start.  The corrected start is never later. -/
+theorem pickup_spec (s e : Int) (b d : Rat) :
+    (((e - s : Int) : Rat) < b * d →
+      |((pickupStart s e (some b) (some d) : Int) : Rat) - ((e : Rat) - b * d)| ≤ 1 / 2) ∧
+    (∀ k : Int, b * d = (k : Rat) → e - s < k → pickupStart s e (some b) (some d) = e - k) ∧
+    (¬ ((e - s : Int) : Rat) < b * d → pickupStart s e (some b) (some d) = s) ∧
+    pickupStart s e none (some d) = s ∧ pickupStart s e (some b) none = s ∧
+    (∀ b' d', pickupStart s e b' d' ≤ s) := by
+  refine ⟨?_, ?_, ?_, rfl, rfl, fun b' d' => pickupStart_le s e b' d'⟩
+  · intro h
+    unfold pickupStart
+    simp only [h, if_true]
+    exact Round.roundHalfEven_close _
+  · intro k hk hlt
+    unfold pickupStart
+    have h : ((e - s : Int) : Rat) < b * d := by rw [hk]; exact_mod_cast hlt
+    show (if ((e - s : Int) : Rat) < b * d then roundHalfEven ((e : Rat) - b * d) else s) = e - k
+    rw [if_pos h, hk]
+    have : (e : Rat) - (k : Rat) = ((e - k : Int) : Rat) := (Int.cast_sub e k).symm
+    rw [this]
+    exact Round.roundHalfEven_int _
+  · intro h
+    unfold pickupStart
+    simp only [h, if_false]
+
+/-- `measure_spec`: for non-overlapping measures in time order (gaps allowed), a position inside
+    measure `i = (s, e)` gets `(s', e)` where `s'` is the pickup-corrected start for the first measure
+    and `s` otherwise. -/
+theorem measure_spec (span : Span) (tss : List (Int × Nat × Nat)) (ms : List (Int × Int)) (d : Option Rat)
+    (x : Int) (ht : Ordered ms) (i : Nat) (s e : Int) (hi : ms[i]? = some (s, e)) (hs : s ≤ x) (he : x < e) :
+    measureMap span tss ms d x
+      = some (if i = 0 then pickupStart s e (beatsAtZero span tss) d else s, e) := by
+  rw [measureMap_tiles span tss ms d x ht i s e hi hs he]
+  exact (corrected_get ms _ d i s e hi).1
+
+/-- the beats used by the pickup rule are those of the time-signature map at time 0 -/
+theorem beats_at_zero (span : Span) (tss : List (Int × Nat × Nat)) :
+    beatsAtZero span tss = (tsMap span tss 0).map fun v => (v.1 : Rat) := rfl
+
+/-- no measures: one measure spanning the timeline, at every position -/
+theorem measure_default (f l : Int) (tss : List (Int × Nat × Nat)) (d : Option Rat) (x : Int) :
+    measureMap (some (f, l)) tss [] d x = some (f, l) ∧ measureMap none tss [] d x = some (0, 0) :=
+  ⟨rfl, rfl⟩
+
+example : Tiles [(0, 4), (4, 20), (20, 36)] := by simp [Tiles]
+
+example : measureMap (some (0, 36)) [(0, 4, 4)] [(0, 4), (4, 20), (20, 36)] (some 4) 2 = some (-12, 4)
+    ∧ measureMap (some (0, 36)) [(0, 4, 4)] [(0, 4), (4, 20), (20, 36)] (some 4) 19 = some (4, 20)
+    ∧ measureMap (some (0, 36)) [(0, 4, 4)] [(0, 16), (16, 32)] (some 4) 2 = some (0, 16) := by
+  decide +kernel
+
+/-- `number_spec`: for non-overlapping measures in time order, a position inside a numbered measure gets its number
+    (whenever the map does not raise, i.e. no `None` number survives the one-step back-fill). -/
+theorem number_spec (span : Span) (tss : List (Int × Nat × Nat)) (ms : List (Int × Int × Option Int))
+    (d : Option Rat) (x : Int) (ht : Ordered (strip ms)) (filled : List Int)
+    (hf : allSome (fillNumbers (ms.map (·.2.2))) = some filled)
+    (i : Nat) (s e n : Int) (hi : ms[i]? = some (s, e, some n)) (hs : s ≤ x) (he : x < e) :
+    measureNumberMap span tss ms d x = some (some n) :=
+  measureNumberMap_tiles span tss ms d x ht filled hf i s e n hi hs he
+
+/-- when every measure carries a number the map does not raise -/
+theorem number_total (ms : List (Int × Int × Option Int)) (h : ∀ m ∈ ms, m.2.2 ≠ none) :
+    ∃ filled, allSome (fillNumbers (ms.map (·.2.2))) = some filled := by
+  apply allSome_of_forall_some
+  apply fillNumbers_no_none
+  intro o ho
+  obtain ⟨m, hm, rfl⟩ := List.mem_map.mp ho
+  exact h m hm
+
+/-- no measures: number 1 everywhere -/
+theorem number_default (span : Span) (tss : List (Int × Nat × Nat)) (d : Option Rat) (x : Int) :
+    measureNumberMap span tss [] d x = some (some 1) := by
+  cases span <;> rfl
+
+/-- a measure without a number takes the previous measure's number (index −1 wraps to the last) -/
+example : fillNumbers [none, some 7, none, some 9] = [some 9, some 7, some 7, some 9] := by decide
+
+example : measureNumberMap (some (0, 36)) [(0, 4, 4)] [(0, 4, some 1), (4, 20, none), (20, 36, some 3)] (some 4) 25
+    = some (some 3) := by decide +kernel
+
+/-- `metrical_spec`: for measures that tile, a position inside measure `i = (s, e)` gets
+    `(x − s', e − s')`, `s'` the pickup-corrected start for the first measure and `s` otherwise. -/
+theorem metrical_spec (span : Span) (tss : List (Int × Nat × Nat)) (ms : List (Int × Int)) (d : Option Rat)
+    (x : Int) (ht : Tiles ms) (i : Nat) (s e : Int) (hi : ms[i]? = some (s, e)) (hs : s ≤ x) (he : x < e) :
+    metricalMap span tss ms d x
+      = some (x - (if i = 0 then pickupStart s e (beatsAtZero span tss) d else s),
+              some (e - (if i = 0 then pickupStart s e (beatsAtZero span tss) d else s))) :=
+  metricalMap_tiles span tss ms d x ht i s e hi hs he
+
+/-- with gaps between measures the distance from the (corrected) start still holds; the reported
+    length is then the distance to the next bar start, which is why `metrical_spec` assumes tiling -/
+theorem metrical_position_no_tiling (span : Span) (tss : List (Int × Nat × Nat)) (ms : List (Int × Int))
+    (d : Option Rat) (x : Int) (ht : Ordered ms) (i : Nat) (s e : Int) (hi : ms[i]? = some (s, e))
+    (hs : s ≤ x) (he : x < e) :
+    (metricalMap span tss ms d x).map (·.1)
+      = some (x - (if i = 0 then pickupStart s e (beatsAtZero span tss) d else s)) :=
+  metricalMap_ordered span tss ms d x ht i s e hi hs he
+
+example : Ordered [(0, 4), (6, 20)] ∧ ¬ Tiles [(0, 4), (6, 20)]
+    ∧ metricalMap (some (0, 20)) [] [(0, 8), (10, 20)] none 3 = some (3, some 10) := by
+  refine ⟨by simp [Ordered], by simp [Tiles], by decide +kernel⟩
+
+/-- the metrical position is measured from the start that `measure_map` reports, and the length is
+    the extent that `measure_map` reports -/
+theorem metrical_agrees_with_measure_map (span : Span) (tss : List (Int × Nat × Nat)) (ms : List (Int × Int))
+    (d : Option Rat) (x : Int) (ht : Tiles ms) (i : Nat) (s e : Int) (hi : ms[i]? = some (s, e))
+    (hs : s ≤ x) (he : x < e) :
+    ∃ s' e', measureMap span tss ms d x = some (s', e') ∧
+      metricalMap span tss ms d x = some (x - s', some (e' - s')) :=
+  ⟨_, _, measure_spec span tss ms d x ht.ordered i s e hi hs he, metrical_spec span tss ms d x ht i s e hi hs he⟩
+
+/-- no measures: metrical position `(0, 0)` everywhere (the documented default) -/
+theorem metrical_default (span : Span) (tss : List (Int × Nat × Nat)) (d : Option Rat) (x : Int) :
+    metricalMap span tss [] d x = some (0, some 0) := rfl
+
+example : metricalMap (some (0, 36)) [(0, 4, 4)] [(0, 4), (4, 20), (20, 36)] (some 4) 2 = some (14, some 16)
+    ∧ metricalMap (some (0, 36)) [(0, 4, 4)] [(0, 4), (4, 20), (20, 36)] (some 4) 21 = some (1, some 16)
+    ∧ metricalMap (some (0, 16)) [(0, 4, 4)] [(0, 16)] (some 4) 5 = some (5, some 16) := by
+  decide +kernel
+
+/-! ### scalar and vector queries -/
 
 /-- scalar/vector agreement at the model level: a vector query is the scalar map at every element -/
 theorem scalar_vector {β : Type} (f : Int → β) (xs : List Int) :
